@@ -308,7 +308,35 @@ def check_containers(fx, R):
             upd = [s_ for s_ in ex if isinstance(s_, tuple) and s_[0] == '=' and s_[1] == acc]
             okop = len(upd) == 1 and upd[0][2] in (('.' + kind, acc, 'point'), ('.cwise' + kind.capitalize(), acc, 'point'))
             if acc is None or len(upd) != 1:
-                R.undecided('B7', 'EigenContainers::%s:update' % kind, 'accumulator update not recognised%s' % tag)
+                # E-STEP: the loop body on one generic coordinate, from the seed and from ordered states
+                from .. import mini
+                verdict = None
+                if acc is not None and len(loops) == 1:
+                    seedn = seed_node(f, acc)
+                    cvs = const_value(seedn) if seedn is not None else None
+                    seedv = float('inf') if cvs == 'inf' else float('-inf') if cvs == '-inf' else float(cvs) if isinstance(cvs, (int, float)) else None
+                    cases = ([(seedv, x_) for x_ in (-5.0, 0.0, 7.0)] if seedv is not None else []) + [(3.0, x_) for x_ in (1.0, 3.0, 5.0)]
+                    ok_n = 0
+                    for (a0, x_) in cases:
+                        env = {acc: a0, 'points': x_}
+                        try:
+                            mini.Step(deep_unwrap, aliases={loops[0]['var']['name']: 'points'}).run(loops[0]['b'], env)
+                        except mini.Unsupported as e:
+                            verdict = ('undecided', str(e))
+                            break
+                        want_ = min(a0, x_) if kind == 'min' else max(a0, x_)
+                        if env[acc] != want_:
+                            verdict = ('violated', 'from the accumulator value %g the point coordinate %g leaves %g; the running %simum is %g' % (a0, x_, env[acc], kind, want_))
+                            break
+                        ok_n += 1
+                    if verdict is None:
+                        verdict = ('holds', ok_n)
+                if verdict is None or verdict[0] == 'undecided':
+                    R.undecided('B7', 'EigenContainers::%s:update' % kind, 'accumulator update not recognised%s' % tag)
+                elif verdict[0] == 'violated':
+                    R.violated('B8', 'EigenContainers::%s:step' % kind, verdict[1] + tag, loc, 'E-STEP')
+                else:
+                    R.holds('B8', 'EigenContainers::%s:step%s' % (kind, tag), 'loop body yields the running %simum on %d witness states (seed state included)' % (kind, verdict[1]), loc, 'E-STEP')
                 continue
             R.form(okop, 'B7', 'EigenContainers::%s:update' % kind, 'running %simum is updated by %s%s' % (kind, upd[0][2], tag), 'acc <- %s(acc, point)' % kind + tag, loc, 'E-SIB')
             seed = seed_node(f, acc)
